@@ -248,9 +248,41 @@ def r20b(rep, F):
                 if y['k'] == 'MemberExpr' and y.get('dk') == 'Field':
                     resets.add(y.get('name'))
     missing = [m for m in need if m not in resets]
+    bad_path = None
+    if not missing:
+        # ... and on every path: a return reached after generator_.seed() but before the resets keeps the cached variates
+        class Resets(paths.Client):
+            track = 'none'
+
+            def __init__(self):
+                self.bad = []
+
+            def init(self, fn):
+                return frozenset()
+
+            def on_node(self, fn, node, auto, ctx):
+                c = node.get('callee') or ''
+                if c.endswith('::reset') and node['ch']:
+                    for y in fn.walk(node['ch'][0]):
+                        if y['k'] == 'MemberExpr' and y.get('dk') == 'Field':
+                            auto = auto | {y.get('name')}
+                if c.endswith('::seed') and node['ch'] and any(y.get('name') == 'generator_' for y in fn.walk(node['ch'][0])):
+                    auto = auto | {'<seeded>'}
+                return auto
+
+            def at_exit(self, fn, ret, auto, ctx):
+                if '<seeded>' in auto:
+                    m = [x for x in need if x not in auto]
+                    if m:
+                        self.bad.append((m, ctx.path()))
+        cl = Resets()
+        paths.run_function(f, cl, F)
+        if cl.bad:
+            missing, bad_path = cl.bad[0]
     rep.add('R20b', f.name, 'resets-every-distribution', not missing, f.where(f.nodes[f.body]),
-            'reset() on %s' % ', '.join(need) if not missing else
-            'setLocalSeed does not reset %s: a cached variate (e.g. the second Box-Muller value) survives reseeding' % ', '.join(missing))
+            'reset() on %s on every path that reseeds the generator' % ', '.join(need) if not missing else
+            'setLocalSeed %s reset %s: a cached variate (e.g. the second Box-Muller value) survives reseeding' %
+            ('has a path that reseeds the generator and returns without the' if bad_path else 'does not', ', '.join(missing)), bad_path)
     st = [x for x in f.walk() if x['k'] == 'BinaryOperator' and x.get('op') == '=' and (f.strip(x['ch'][0]) or {}).get('name') == 'localSeed_']
     sd = [x for x in f.walk() if (x.get('callee') or '').endswith('::seed') and any(y.get('name') == 'generator_' for y in f.walk(x['ch'][0]))]
     ok = len(st) == 1 and len(sd) == 1 and (f.strip(sd[0]['ch'][1]) or {}).get('name') in ('localSeed_', f.params[0]['name'])
